@@ -21,6 +21,7 @@ import typing
 from collections import deque
 
 from adaptix import Retort, create_loc_stack_checker
+from adaptix.load_error import LoadError
 from adaptix._internal.provider.loc_stack_filtering import LocStack
 from adaptix._internal.provider.location import TypeHintLoc
 
@@ -356,12 +357,44 @@ def unordered_key(n):
 
 
 def how_differs(a, b):
+    """names the kind of node at which two unequal normal forms of equivalent hints part (diagnosis only)"""
     if a[0] != "ok" or b[0] != "ok":
         return "one raises"
     try:
-        return "member order (up to de-duplication)" if unordered_key(a[1]) == unordered_key(b[1]) else "structure"
+        if unordered_key(a[1]) != unordered_key(b[1]):
+            return "structure"
+        return _order_culprit(a[1], b[1]) or "structure"
     except TypeError:
         return "structure"
+
+
+def _order_culprit(a, b):  # noqa: C901, PLR0911, PLR0912
+    """a, b: unequal normal forms with equal unordered_key -> 'order of Union members' / 'order of Literal members'"""
+    if not (isinstance(a, NT.BaseNormType) and isinstance(b, NT.BaseNormType)):
+        return None
+    if a == b:
+        return None
+    a_union, b_union = a.origin is typing.Union, b.origin is typing.Union
+    if a_union or b_union:
+        # first look for a pair of members that are the same up to order but unequal: the culprit is inside them
+        pool = [*(a.args if a_union else (a,)), *(b.args if b_union else (b,))]
+        for i, x in enumerate(pool):
+            for y in pool[i + 1:]:
+                if x != y and unordered_key(x) == unordered_key(y):
+                    return _order_culprit(x, y)
+        return "order of Union members"
+    if a.origin is typing.Literal and b.origin is typing.Literal:
+        return "order of Literal members"
+    for x, y in zip(a.args, b.args):
+        if isinstance(x, tuple) and isinstance(y, tuple):
+            for p, q in zip(x, y):
+                got = _order_culprit(p, q)
+                if got:
+                    return got
+        got = _order_culprit(x, y)
+        if got:
+            return got
+    return None
 
 
 def show_norm(n):
@@ -435,6 +468,8 @@ def rend(v):  # noqa: PLR0911
 def _call(fn, x, keep_exc_class):
     try:
         return "ok:" + rend(fn(x))[:200]
+    except LoadError:
+        return "err:LoadError"       # which LoadError subclass reports a rejection is not part of the property
     except Exception as e:  # noqa: BLE001
         return "err:" + type(e).__name__ if keep_exc_class else "err"
 
@@ -565,10 +600,17 @@ def replay(case):  # noqa: C901, PLR0911, PLR0912
     if kind == "predicate":
         probes = [build_cold(R.from_json(p)) for p in case["probes"]]
         va, vb = predicate_vector(build_cold(a), probes), predicate_vector(build_cold(b), probes)
-        if va != vb:
+        if va != vb and "no-predicate" not in (va[0], vb[0]):
             return f"predicates of {R.render(a)} and {R.render(b)} disagree: {va} vs {vb}"
         return None
     raise ValueError(kind)
+
+
+SKIP_UNBUILDABLE = "rewrite / edit target is rejected by Python itself (e.g. None | None): not a hint"
+SKIP_EDIT_NOOP = "edit leaves the meaning unchanged because the rewritten hint lists one alternative twice"
+SKIP_UNDEFINED = "both members accept the datum with different results inside a union / Literal (documented undefined)"
+SKIP_NOT_OF_TYPE = "dumpers differ on a value that is not (known to be) of the requested type: dumping it is not specified"
+SKIP_NO_PREDICATE = "no predicate can be built from one of the two members (ValueError): nothing to compare"
 
 
 def behaviour_diffs(b0, b1, m):
@@ -587,9 +629,12 @@ def behaviour_diffs(b0, b1, m):
         for d, ox, oy in zip(data, x, y):
             if ox == oy:
                 continue
+            if leg == "dump" and R.belongs(d, m) is not True:
+                out.append((None, None, SKIP_NOT_OF_TYPE))
+                continue
             both_ok = ox.startswith("ok:") and oy.startswith("ok:")
             if both_ok and has_union_or_literal(m):
-                out.append((None, None, "both accept with different results inside a union / Literal (documented undefined)"))
+                out.append((None, None, SKIP_UNDEFINED))
                 continue
             kind = "different result" if both_ok else "accepted by one only" if ox[:2] != oy[:2] else "different error class"
             out.append((leg, kind, f"{leg} of {rend(d)}: {ox} vs {oy}"))
@@ -604,11 +649,6 @@ def _brief(x):
 
 # ------------------------------------------------------------------------------------------------------------
 # exploration of one meaning class
-
-SKIP_UNBUILDABLE = "rewrite / edit target is rejected by Python itself (e.g. None | None): not a hint"
-SKIP_EDIT_NOOP = "edit leaves the meaning unchanged because the rewritten hint lists one alternative twice"
-SKIP_UNDEFINED = "both members accept the datum with different results inside a union / Literal (documented undefined)"
-
 
 class ClassExplorer:
     def __init__(self, seeds, report, cfg):
@@ -876,7 +916,7 @@ class ClassExplorer:
             report.count("behaviour_members_compared")
             for leg, kind, text in behaviour_diffs(b0, b, self.m0):
                 if leg is None:
-                    report.skip(SKIP_UNDEFINED)
+                    report.skip(text)
                     continue
                 rule, rules = self.blame(
                     s, lambda x, y, leg=leg: any(d[0] == leg for d in behaviour_diffs(beh_of(x), beh_of(y), self.m0)))
@@ -904,9 +944,10 @@ class ClassExplorer:
             vec = predicate_vector(self.hints[s], probes)
             if vec[0] == "no-predicate":
                 report.outcome("predicate cannot be built (ValueError)")
-            else:
-                report.outcome("predicate: matches", sum(vec))
-                report.outcome("predicate: does not match", len(vec) - sum(vec))
+                report.skip(SKIP_NO_PREDICATE)
+                continue
+            report.outcome("predicate: matches", sum(vec))
+            report.outcome("predicate: does not match", len(vec) - sum(vec))
             report.count("predicates_compared")
             first = groups.get(flag)
             if first is None:
@@ -919,15 +960,14 @@ class ClassExplorer:
                         pv[x] = (bare_generic_flag(self.hints[x]), predicate_vector(self.hints[x], probes))
                     return pv[x]
 
-                rule, rules = self.blame(s, lambda x, y: pred_of(x)[0] == pred_of(y)[0] and pred_of(x)[1] != pred_of(y)[1])
+                rule, rules = self.blame(
+                    s, lambda x, y: pred_of(x)[0] == pred_of(y)[0] and "no-predicate" not in (pred_of(x)[1][0], pred_of(y)[1][0])
+                    and pred_of(x)[1] != pred_of(y)[1])
                 report.violation(
                     {"check": "C15.behaviour", "rewrite": rule, "cold": True, "leg": "predicate",
-                     "differs": "matches different stacks" if first[1][0] != "no-predicate" and vec[0] != "no-predicate"
-                     else "cannot be produced for one of them"},
+                     "differs": "matches different stacks"},
                     f"predicates built from {R.render(first[0])} and from the equivalent {R.render(s)} (rewrites {rules}) "
-                    f"disagree on the stacks ending in {[R.render(p) for p, x, y in zip(probes_specs, first[1], vec) if x != y]}"
-                    if first[1][0] != "no-predicate" and vec[0] != "no-predicate" else
-                    f"predicate from {R.render(first[0])}: {first[1][:2]}, from the equivalent {R.render(s)}: {vec[:2]}",
+                    f"disagree on the stacks ending in {[R.render(p) for p, x, y in zip(probes_specs, first[1], vec) if x != y]}",
                     {"kind": "predicate", "a": R.to_json(first[0]), "b": R.to_json(s), "cold": True,
                      "probes": [R.to_json(p) for p in probes_specs]},
                 )
